@@ -15,7 +15,9 @@ EXTENDS Naturals, Sequences, FiniteSets, TLC, Json, IOUtils
 Facts == JsonDeserialize(IOEnv.FACTS)
 Pool == { Facts.pool[i] : i \in DOMAIN Facts.pool }
 
-Positions == {"field", "variant", "typeparam", "constparam", "lifetime", "typename", "method"}
+\* "fieldtype": a user type of that name, used as the type of a field (the generated code writes field types into
+\* where-clauses and, possibly, into method bodies where its own generics are in scope)
+Positions == {"field", "variant", "typeparam", "constparam", "lifetime", "typename", "method", "fieldtype"}
 
 \* Names the templates *derive* from the user's own field names (recorded from real expansions as prefix/suffix pairs,
 \* e.g. _s_<field>, _o_<field>): a user may call another field exactly that.
